@@ -1249,15 +1249,20 @@ def n8(e: Engine, rep: Report, rule: str = 'N8'):
     # which group of the line pattern is the code?  recv_reply says so
     ctx = e.method_ctx('slimta.smtp.io.IO', 'recv_reply')
     pfn = common.reply_parser_func(e) or ctx.func
-    gv = rx.group_vars(pfn.node)
+    scan = [pfn.node] + ([ctx.func.node] if ctx.func is not pfn else [])
+    gv = {}
+    for fnode in scan:
+        gv.update(rx.group_vars(fnode))
     gno = gv.get('code')
     if gno is None:
         # the running code is assigned from a group variable
-        for a in walk_own(pfn.node):
-            if isinstance(a, ast.Assign) and any(
-                    isinstance(t, ast.Name) and t.id == 'code'
-                    for t in a.targets) and isinstance(a.value, ast.Name):
-                gno = gv.get(a.value.id, gno)
+        for fnode in scan:
+            for a in walk_own(fnode):
+                if isinstance(a, ast.Assign) and any(
+                        isinstance(t, ast.Name) and t.id == 'code'
+                        for t in a.targets) and \
+                        isinstance(a.value, ast.Name):
+                    gno = gv.get(a.value.id, gno)
     if gno is None:
         # the variable whose decoded value is returned as the code
         for n in walk_own(ctx.func.node):
